@@ -66,6 +66,7 @@ func main() {
 	dir := flag.String("dir", "", "directory of the scratch copy (rewritten in place)")
 	out := flag.String("report", "", "write a JSON report here")
 	flag.Parse()
+	perIterationVars = goModAtLeast(*dir, 1, 22)
 	if *dir == "" {
 		fmt.Fprintln(os.Stderr, "simrewrite: -dir required")
 		os.Exit(2)
@@ -460,6 +461,26 @@ func (fs *fileState) renderNode(n ast.Node, skip *edit) string {
 	return fs.render(fs.off(n.Pos()), fs.off(n.End()), skip)
 }
 
+// perIterationVars: the module's go directive selects per-iteration loop variables (go >= 1.22); the rewritten loops
+// must give closures and goroutines started in the body the same variables the original loops would.
+var perIterationVars bool
+
+func goModAtLeast(dir string, major, minor int) bool {
+	data, err := os.ReadFile(filepath.Join(dir, "go.mod"))
+	if err != nil {
+		return false
+	}
+	for _, line := range strings.Split(string(data), "\n") {
+		f := strings.Fields(line)
+		if len(f) == 2 && f[0] == "go" {
+			var a, b int
+			fmt.Sscanf(f[1], "%d.%d", &a, &b)
+			return a > major || (a == major && b >= minor)
+		}
+	}
+	return false
+}
+
 // rewriteRange turns a range over a map with an ordered key type into a loop over simrt.Iter.
 func (fs *fileState) rewriteRange(r *ast.RangeStmt) bool {
 	t := info.TypeOf(r.X)
@@ -493,19 +514,25 @@ func (fs *fileState) rewriteRange(r *ast.RangeStmt) bool {
 		var b strings.Builder
 		fmt.Fprintf(&b, "{ %s := simrt.Iter(%s); ", it, fs.renderNode(r.X, nil))
 		assign := ""
+		op := "="
 		if r.Tok == token.DEFINE {
-			if hasK {
-				fmt.Fprintf(&b, "%s := %s.ZeroK(); ", fs.renderNode(r.Key, nil), it)
-			}
-			if hasV {
-				fmt.Fprintf(&b, "%s := %s.ZeroV(); ", fs.renderNode(r.Value, nil), it)
+			if perIterationVars {
+				// go >= 1.22 in go.mod: every iteration has its own copy of the variables
+				op = ":="
+			} else {
+				if hasK {
+					fmt.Fprintf(&b, "%s := %s.ZeroK(); ", fs.renderNode(r.Key, nil), it)
+				}
+				if hasV {
+					fmt.Fprintf(&b, "%s := %s.ZeroV(); ", fs.renderNode(r.Value, nil), it)
+				}
 			}
 		}
 		if hasK {
-			assign += fmt.Sprintf("%s = %s.K(); ", fs.renderNode(r.Key, nil), it)
+			assign += fmt.Sprintf("%s %s %s.K(); ", fs.renderNode(r.Key, nil), op, it)
 		}
 		if hasV {
-			assign += fmt.Sprintf("%s = %s.V(); ", fs.renderNode(r.Value, nil), it)
+			assign += fmt.Sprintf("%s %s %s.V(); ", fs.renderNode(r.Value, nil), op, it)
 		}
 		fmt.Fprintf(&b, "for %s.Next() { %s", it, assign)
 		return b.String()
@@ -545,6 +572,11 @@ func (fs *fileState) rewriteRangeChan(r *ast.RangeStmt) bool {
 		v := "_"
 		if hasV {
 			v = fs.renderNode(r.Key, nil)
+			if r.Tok == token.DEFINE && perIterationVars {
+				tmp := fmt.Sprintf("__v%d", uniq)
+				fmt.Fprintf(&b, "for { %s, %s := %s.Recv2(); %s = %s; if !%s { break }; %s := %s; _ = %s; ", tmp, ok+"x", ch, ok, ok+"x", ok, v, tmp, v)
+				return b.String()
+			}
 			if r.Tok == token.DEFINE {
 				fmt.Fprintf(&b, "%s := %s.Zero(); _ = %s; ", v, ch, v)
 			}
